@@ -21,6 +21,8 @@
 (* pass before a send to d fails with a transient error (F[d] = number of packets waiting for d *)
 (* means no send to d fails).  After a failed send the stack must not send anything else to     *)
 (* that destination during the pass (else a later packet would overtake the failed one).        *)
+(* Payloads are not modelled; the binding makes every third packet a datagram of length 0 (a    *)
+(* legal datagram, for which the socket reports 0 bytes sent).                                  *)
 (* The order in which packets to *different* destinations stay in the queue or reach the socket *)
 (* is not part of the statement: the binding compares per-destination projections only.         *)
 EXTENDS Integers, Sequences, FiniteSets, TLC
